@@ -498,9 +498,22 @@ func (hs *serverHandshakeState) checkForResumption() bool {
 	sessionKey := hex.EncodeToString(hs.clientHello.sessionId)
 	var ok bool
 	hs.sessionState, ok = c.config.SessionCache.Get(sessionKey)
-	if !ok {
+	if !ok || hs.sessionState == nil {
 		return false
 	}
+	// 会话重用不得绕过当前配置的客户端认证策略：
+	// 策略要求客户端证书而原会话没有证书，或者策略要求验证证书而会话中的证书
+	// 在当前配置下验证不通过时，不重用会话，改为完整握手。
+	sessionHasClientCerts := len(hs.sessionState.peerCertificates) != 0
+	if requiresClientCert(c.config.ClientAuth) && !sessionHasClientCerts {
+		return false
+	}
+	if sessionHasClientCerts && c.config.ClientAuth >= VerifyClientCertIfGiven {
+		if err := c.verifySessionClientCertificates(hs.sessionState.peerCertificates, hs.sessionState.cipherSuite); err != nil {
+			return false
+		}
+	}
+
 	if c.vers != hs.sessionState.vers {
 		return false
 	}
@@ -520,6 +533,40 @@ func (hs *serverHandshakeState) checkForResumption() bool {
 		return false
 	}
 	return true
+}
+
+// verifySessionClientCertificates 按当前配置（ClientCAs、时间、密钥用途）重新验证会话中记录的客户端证书。
+func (c *Conn) verifySessionClientCertificates(certs []*x509.Certificate, cipherSuite uint16) error {
+	isECDHE := cipherSuite == ECDHE_SM4_CBC_SM3 || cipherSuite == ECDHE_SM4_GCM_SM3
+	start := 1
+	if isECDHE {
+		start = 2
+	}
+	if len(certs) < start {
+		return errors.New("dtlcp: session has too few client certificates")
+	}
+	keyUsages := []x509.ExtKeyUsage{x509.ExtKeyUsageClientAuth, x509.ExtKeyUsageServerAuth}
+	if c.config.ClientAuth == RequireAndVerifyAnyKeyUsageClientCert {
+		keyUsages = []x509.ExtKeyUsage{x509.ExtKeyUsageAny}
+	}
+	opts := x509.VerifyOptions{
+		Roots:         c.config.ClientCAs,
+		CurrentTime:   c.config.time(),
+		Intermediates: x509.NewCertPool(),
+		KeyUsages:     keyUsages,
+	}
+	for _, cert := range certs[start:] {
+		opts.Intermediates.AddCert(cert)
+	}
+	if _, err := certs[0].Verify(opts); err != nil {
+		return err
+	}
+	if isECDHE {
+		if _, err := certs[1].Verify(opts); err != nil {
+			return err
+		}
+	}
+	return nil
 }
 
 // =============================================================================
